@@ -563,9 +563,22 @@ func (w *c08World) invariant() error {
 // reply simulates one datagram arriving on the session's socket from w.peer and waits (by
 // yielding, no clock) until the real receive loop has reported it through SendMessage.
 func (w *c08World) reply() error {
+	// the socket is full-cone: a reply may also come from a source the session never wrote to (the
+	// remote answering from another address, an IP where the hook put a host name). Added after
+	// the independently seeded change C08-5 (only replies whose source equals the rewritten
+	// destination were reported from the original address).
+	for _, from := range []string{w.peer, "203.0.113.9:999"} {
+		if err := w.replyFrom(from); err != nil {
+			return err
+		}
+	}
+	return nil
+}
+
+func (w *c08World) replyFrom(from string) error {
 	c := w.io.conns[len(w.io.conns)-1]
-	data := []byte{'r', byte(w.step), byte(w.step >> 8)}
-	r := c08Reply{from: w.peer, data: data}
+	data := []byte{'r', byte(w.step), byte(w.step >> 8), byte(len(from))}
+	r := c08Reply{from: from, data: data}
 	delivered := false
 	for i := 0; i < c08Yields && !delivered; i++ {
 		select {
@@ -587,17 +600,17 @@ func (w *c08World) reply() error {
 		}
 	}
 	if m == nil {
-		return c08Bad("reply-not-reported", "a reply from %q was read but never passed to SendMessage", w.peer)
+		return c08Bad("reply-not-reported", "a reply from %q was read but never passed to SendMessage", from)
 	}
-	want := w.peer
+	want := from
 	if w.hooked {
 		want = w.orig
 	}
 	if m.Addr != want {
 		if w.hooked {
-			return c08Bad("reply-not-from-original-address", "hooked session (original %q, rewritten to %q): reply reported from %q", w.orig, w.target, m.Addr)
+			return c08Bad("reply-not-from-original-address", "hooked session (original %q, rewritten to %q): a reply from %q was reported from %q", w.orig, w.target, from, m.Addr)
 		}
-		return c08Bad("reply-address", "reply from %q reported from %q", w.peer, m.Addr)
+		return c08Bad("reply-address", "reply from %q reported from %q", from, m.Addr)
 	}
 	if m.SessionID != c08SID || m.FragCount != 1 || m.FragID != 0 || !bytes.Equal(m.Data, data) {
 		return c08Bad("reply-mangled", "reply reported as sid=%#x frag=%d/%d data=%x", m.SessionID, m.FragID, m.FragCount, m.Data)
